@@ -17,7 +17,7 @@ THEOREMS = (["CKT.C02.check_" + n for n in FAMS + FIXED + ["kak"]]
             + ["CKT.C02.checkBasis_sound'", "CKT.C02.sat_angle", "CKT.C02.sat_u", "CKT.C02.dressing",
                "CKT.C02.unsupported_refused", "CKT.C02.kak_coeffs_local_invariant"])
 RULE = ("all 20 explicitly supported names (parametrised ones at special angles 0, +-pi, 2pi k, |theta|>4pi, 1e-9 and random angles in "
-        "[-8pi, 8pi]) plus the KAK path (rzx, xx+-yy, Haar-random and Weyl-corner unitaries with random local dressing) and refused "
+        "[-8pi, 8pi]) plus the KAK path (rzx, xx+-yy, open-control variants of the controlled gates, Haar-random and Weyl-corner unitaries with random local dressing) and refused "
         "instructions; compared per map and side: operation names, each operation's transfer matrix (1e-9), coefficients, kappa, the "
         "target's 16x16 transfer matrix against Qiskit's Operator; non-trivial = basis produced; distinct by payload")
 ASSUMPTIONS = ["TwoQubitWeylDecomposition (Qiskit) is external: its output (a,b,c,K1l,K1r,K2l,K2r) is checked numerically per case, "
@@ -25,6 +25,7 @@ ASSUMPTIONS = ["TwoQubitWeylDecomposition (Qiskit) is external: its output (a,b,
                "the gate-semantics table of the model (unitaries of the named gates, Kraus operators of reset and of the signed measurement marker) "
                "is compared numerically with Qiskit's Operator on every case",
                "floating-point rounding of the coefficients is outside the model (tolerance 1e-9)"]
+OPEN = ["cx", "cy", "cz", "ch", "cs", "csdg", "csx", "crx", "cry", "crz", "cp"]
 TOL = 1e-9
 SC = 1e13
 
@@ -45,6 +46,8 @@ def cases(rng, tier):
             yield ("gate", {"gate": name, "params": [th]})
     for name in FIXED:
         yield ("gate", {"gate": name, "params": []})
+    for g_ in (rng.sample(OPEN, 3) if tier == "quick" else OPEN):
+        yield ("kak", {"gate": "open:" + g_, "params": [gen.rand_angle(rng)] if g_ in FAMS else []})
     for _ in range(reps * 2):
         r = rng.random()
         if r < 0.1:
@@ -52,7 +55,11 @@ def cases(rng, tier):
             g_ = rng.choice(["rzx", "xx_plus_yy", "xx_minus_yy"])
             th_ = rng.choice([0, math.pi / 2, math.pi, 2 * math.pi]) + rng.choice([-1, 1]) * rng.uniform(1e-6, 8e-5)
             yield ("kak", {"gate": g_, "params": [th_] if g_ == "rzx" else [th_, 0.25]})
-        elif r < 0.25:
+        elif r < 0.2:
+            # open-control variants (ctrl_state=0; Qiskit names them "<name>_o0"): not in the explicit table, hence the KAK path
+            g_ = rng.choice(OPEN)
+            yield ("kak", {"gate": "open:" + g_, "params": [gen.rand_angle(rng)] if g_ in FAMS else []})
+        elif r < 0.3:
             yield ("kak", {"gate": "rzx", "params": [gen.rand_angle(rng)]})
         elif r < 0.5:
             yield ("kak", {"gate": rng.choice(["xx_plus_yy", "xx_minus_yy"]), "params": [gen.rand_angle(rng), rng.uniform(-3, 3)]})
@@ -76,6 +83,12 @@ def _gate(payload):
     n = payload["gate"]
     if n == "csxdg":
         return canon.mk_op("csxdg")
+    if n.startswith("open:"):
+        base = canon.mk_op(n[5:], payload.get("params", ()))
+        g = base.to_mutable() if hasattr(base, "to_mutable") else base.copy()
+        g.ctrl_state = 0
+        assert g.name.endswith("_o0"), g.name
+        return g
     if n == "weyl":
         import scipy.linalg as la
         from ..oracles.channel import PAULI
